@@ -113,9 +113,8 @@ theorem extend1_inj {ρ : Nat → Nat} {old total : Nat} (h : InjBelow ρ old to
 /-! ### Measure -/
 
 theorem measureOne_inv {sp : Sp} {st st' : St} {ρq ρb dreg} {lq lb j : Nat}
-    (h : Inv sp st ρq ρb dreg) (hb : st.bits.length = lb + j) (hs : measureOne st lq lb j = .ok st') :
-    ∃ sp' ρb' dreg', Sp.measureOne sp lq lb j = .ok sp' ∧ Inv sp' st' ρq ρb' dreg' ∧
-      st'.bits.length = lb + j + 1 := by
+    (h : Inv sp st ρq ρb dreg) (hs : measureOne st lq lb j = .ok st') :
+    ∃ sp' ρb' dreg', Sp.measureOne sp lq lb j = .ok sp' ∧ Inv sp' st' ρq ρb' dreg' := by
   unfold measureOne at hs
   split at hs
   · cases hs
@@ -135,7 +134,7 @@ theorem measureOne_inv {sp : Sp} {st st' : St} {ρq ρb dreg} {lq lb j : Nat}
         have hold : ∀ β, β < sp.nb → extend1 ρb sp.nb st.nb β = ρb β := by
           intro β hβ; simp [extend1, hβ]
         have hnew : extend1 ρb sp.nb st.nb sp.nb = st.nb := by simp [extend1]
-        refine ⟨_, extend1 ρb sp.nb st.nb, dreg ++ [st.nb], by simp only [Sp.measureOne, ha]; rfl, ?_, ?_⟩
+        refine ⟨_, extend1 ρb sp.nb st.nb, dreg ++ [st.nb], by simp only [Sp.measureOne, ha]; rfl, ?_⟩
         · refine { ref := { nq := h.ref.nq, nb := ?_, injq := h.ref.injq, injb := ?_, cmds := ?_,
                             qubits := h.ref.qubits, ps := ?_, scal := h.ref.scal, readout := ?_,
                             ppdom := ?_, pp := ?_ },
@@ -173,7 +172,7 @@ theorem measureOne_inv {sp : Sp} {st st' : St} {ρq ρb dreg} {lq lb j : Nat}
                 · exact .inl ⟨by omega, h2⟩
           · simp [hdom', h.ref.ppdom]
           · simp only [List.map_append, List.map_cons, List.map_nil]
-            rw [hrun, h.ref.pp, hb]
+            rw [hrun, h.ref.pp]
             congr 1
             · exact cg_congr h.cg_lt (fun β hβ => (hold β hβ).symm)
             · rw [insertAt_map, bw_congr h.bw_lt (fun β hβ => (hold β hβ).symm)]
@@ -196,17 +195,22 @@ theorem measureOne_inv {sp : Sp} {st st' : St} {ρq ρb dreg} {lq lb j : Nat}
             · subst hr; simp
             · have := h.bits_lt r (List.mem_of_mem_drop hr); simp only; omega
           · intro hl
-            have := h.raw (hlay hl)
+            obtain ⟨hl0, hcodle⟩ := hlay hl
+            have hbits := h.raw hl0
+            -- before any classical box there are as many bit wires as read-out registers
+            have hpp := h.ref.pp
+            simp only [PP.run, hl0, List.foldl_nil, Prod.mk.injEq] at hpp
+            have hlen' : dreg.length = sp.bw.length := by
+              have := congrArg List.length hpp.2; simpa using this
+            have hbl : st.bits.length ≤ lb + j := by
+              rw [hbits, hlen', ← h.ppcod]; exact hcodle
             simp only
-            rw [List.take_of_length_le (by omega), List.drop_of_length_le (by omega), this]
+            rw [List.take_of_length_le hbl, List.drop_of_length_le hbl, hbits]
             simp
           · simp [hcod', h.ppcod, insertAt_length]
-        · simp only [List.length_append, List.length_take, List.length_drop, List.length_cons,
-            List.length_nil]
-          omega
 
 theorem measureLoop_inv {sp : Sp} {st st' : St} {ρq ρb dreg} {lq lb : Nat} (m j0 : Nat)
-    (h : Inv sp st ρq ρb dreg) (hb : st.bits.length = lb + j0)
+    (h : Inv sp st ρq ρb dreg)
     (hs : measureLoop st lq lb (List.range' j0 m) = .ok st') :
     ∃ sp' ρb' dreg', Sp.measureLoop sp lq lb (List.range' j0 m) = .ok sp' ∧ Inv sp' st' ρq ρb' dreg' := by
   induction m generalizing sp st ρb dreg j0 with
@@ -219,8 +223,8 @@ theorem measureLoop_inv {sp : Sp} {st st' : St} {ρq ρb dreg} {lq lb : Nat} (m 
     split at hs
     · cases hs
     · rename_i st1 h1
-      obtain ⟨sp1, ρb1, dreg1, e1, inv1, hb1⟩ := measureOne_inv h hb h1
-      obtain ⟨sp2, ρb2, dreg2, e2, inv2⟩ := ih (j0 + 1) inv1 (by omega) hs
+      obtain ⟨sp1, ρb1, dreg1, e1, inv1⟩ := measureOne_inv h h1
+      obtain ⟨sp2, ρb2, dreg2, e2, inv2⟩ := ih (j0 + 1) inv1 hs
       exact ⟨sp2, ρb2, dreg2, by simp only [List.range'_succ, Sp.measureLoop, e1]; exact e2, inv2⟩
 
 /-! ### Bra -/
@@ -435,7 +439,7 @@ theorem swapBits_pp_inv {sp : Sp} {st st' : St} {ρq ρb dreg} {lb : Nat}
 /-! ### Swap(bit, bit) by renaming registers -/
 
 theorem swapBits_raw_inv {sp : Sp} {st st' : St} {ρq ρb dreg} {lb : Nat}
-    (h : Inv sp st ρq ρb dreg) (he : st.pp.layers.isEmpty = true) (h0 : st.ps.has 0 = false)
+    (h : Inv sp st ρq ρb dreg) (he : st.pp.layers.isEmpty = true)
     (hs : swapBits st lb = .ok st') :
     ∃ ρb', sp.bw.length ≥ lb + 2 ∧ Inv { sp with bw := swapAt sp.bw lb } st' ρq ρb' dreg := by
   unfold swapBits at hs
@@ -461,11 +465,9 @@ theorem swapBits_raw_inv {sp : Sp} {st st' : St} {ρq ρb dreg} {lb : Nat}
     have hmb : b ∈ dreg := List.mem_of_getElem? hb
     obtain ⟨ha1, ha2⟩ := h.ref.readout.lt hma
     obtain ⟨hb1, hb2⟩ := h.ref.readout.lt hmb
-    -- the three renamings do not touch the post-selection
-    have hps : ((st.ps.rename [(a, 0)]).rename [(b, a)]).rename [(0, b)] = st.ps := by
-      rw [PS.rename_of_not_has st.ps [(a, 0)] (by simp [ha2]),
-          PS.rename_of_not_has st.ps [(b, a)] (by simp [hb2]),
-          PS.rename_of_not_has st.ps [(0, b)] (by simp [h0])]
+    -- neither unit is post-selected: the renaming does not touch the post-selection
+    have hps : st.ps.rename [(a, b), (b, a)] = st.ps :=
+      PS.rename_of_not_has st.ps _ (by simp [ha2, hb2])
     -- sortedness of the read-out registers: every other register differs from a and b
     have hs' := h.ref.readout.1
     rw [hsplit, List.pairwise_append, List.pairwise_append] at hs'
